@@ -77,13 +77,15 @@ def main():
     out = os.path.join(HERE, "seeded", name)
     if valid or "--keep" in sys.argv:
         os.makedirs(out, exist_ok=True)
-        shutil.copy(patch, os.path.join(out, "patch.diff"))
-        shutil.copy(demo, os.path.join(out, "demo.py"))
+        if os.path.abspath(src) != os.path.abspath(out):
+            shutil.copy(patch, os.path.join(out, "patch.diff"))
+            shutil.copy(demo, os.path.join(out, "demo.py"))
         meta = {}
         mp = os.path.join(src, "meta.json")
         if os.path.exists(mp):
             try:
                 meta = json.load(open(mp))
+                meta.pop("evaluation", None)
             except Exception:
                 meta = {"raw": open(mp).read()[:2000]}
         meta["property"] = pid
